@@ -9,22 +9,29 @@ CLAUSES = ('C06',)
 INV = ['C06_Diagnostic', 'C06_StepBound']
 
 
-def deep(kinds, depths):
+OPEN = {'brace': '{', 'cmdarg': '\\a{', 'optarg': '\\a[', 'env': '\\begin{e}', 'item': '\\begin{itemize}\\item ',
+        'math': '$', 'dmath': '\\[', 'menv': '\\begin{equation}'}
+CLOSE = {'brace': '}', 'cmdarg': '}', 'optarg': ']', 'env': '\\end{e}', 'item': '\\end{itemize}', 'math': '$',
+         'dmath': '\\]', 'menv': '\\end{equation}'}
+MATHY = ('math', 'dmath', 'menv')
+
+
+def deep(depths):
+    """nestings alternating two container kinds, closed and unclosed, to the given depths"""
     out = []
+    kinds = sorted(OPEN)
     for d in depths:
-        for k in kinds:
-            if k == 'brace':
-                out += ['{' * d + 'x' + '}' * d, '{' * d + 'x']
-            elif k == 'bracket':
-                out += ['\\a' + '[' * d + 'x' + ']' * d, '\\a[{' * d + 'x' + '}]' * d]
-            elif k == 'env':
-                out += ['\\begin{e}' * d + 'x' + '\\end{e}' * d, '\\begin{e}' * d + 'x']
-            elif k == 'item':
-                out += ['\\begin{itemize}\\item ' * d + 'x' + '\\end{itemize}' * d]
-            elif k == 'math':
-                out += ['${' * d + 'x' + '}$' * d, '\\a{$' * d + 'x' + '$}' * d]
-            elif k == 'cmd':
-                out += ['\\a{' * d + 'x' + '}' * d, '\\a{\\b[' * d + 'x' + ']}' * d]
+        for k1 in kinds:
+            for k2 in kinds:
+                if k1 in MATHY and k2 in MATHY:
+                    continue
+                if (k1 in MATHY and k2 == 'item') or (k2 in MATHY and k1 == 'item'):
+                    continue
+                seq = [(k1 if i % 2 == 0 else k2) for i in range(d)]
+                op = ''.join(OPEN[k] for k in seq)
+                cl = ''.join(CLOSE[k] for k in reversed(seq))
+                out.append(op + 'x' + cl)
+                out.append(op + 'x')
     return out
 
 
@@ -36,25 +43,20 @@ def run(chk):
                 'every experiment is replayed on the real parser under a watchdog; corpus, random long strings, mutated '
                 'documents and deep nestings are recorded from the real parser and validated by TLC (StringsTrace). '
                 'A case is the source string; distinct = distinct sources.')
-    scopes = [('sc', S.SC + S.SC_EXTRA, 3 if quick else 4), ('ign', S.SUB['ign'], 4 if quick else 5),
-              ('st', S.ST, 2 if quick else 3)]
+    scopes = [(S.SC + S.SC_EXTRA, 3 if quick else 4), (S.SUB['ign'], 3 if quick else 5), (S.ST, 2 if quick else 3)]
     for k in ('env', 'args', 'math', 'verb', 'item', 'esc', 'sig'):
-        scopes.append((k, S.SUB[k], 3 if quick else 5))
-    bad = []
-    for label, words, n in scopes:
-        res = S.explore(chk, label, words, n, invariants=INV, timeout=3000)
-        chk.notes.setdefault('tlc_invariants_violated', [])
-        if res.violated:
-            chk.notes['tlc_invariants_violated'] += ['%s:%s' % (label, v) for v in res.violated]
-        bad += S.replay(chk, res.records)
-        for r in res.records[:2]:
-            chk.sample({'source': from_atoms(r['i']), 'strict': r['A']['o'], 'tolerant': r['B']['o']})
+        scopes.append((S.SUB[k], 3 if quick else 5))
+    res = S.explore(chk, 'strings', scopes, invariants=INV, timeout=3000, sources=deep([6, 14] if quick else [6, 14, 40]))
+    S.model_must_hold(chk, res)
+    bad = S.replay(chk, res.records)
+    for r in res.records[:6]:
+        chk.sample({'source': from_atoms(r['i']), 'strict': r['A']['o'], 'tolerant': r['B']['o']})
     # material TLC did not generate
     docs = S.corpus_sources()
     extra = list(docs)
     extra += S.mutations(rng, docs, 3 if quick else 40, S.SC + S.SC_EXTRA)
     extra += S.random_strings(rng, S.ST + S.SC_EXTRA, 300 if quick else 20000, 5, 30)
-    extra += deep(['brace', 'bracket', 'env', 'item', 'math', 'cmd'], [10, 20, 40])
+    extra += deep([12, 40])
     extra = list(dict.fromkeys(extra))
     exps = obs.experiments(extra)
     for e in exps:
